@@ -669,6 +669,21 @@ void run_case(uint64_t seed, const std::string& id, bool big)
         gen_spec_t spec;
         static const char* kinds[] = {"sclass", "mclass", "scalar", "struct", "product", "gradient", "scalar", "sclass"};
         spec.kind = kinds[rng.next() % 8];
+        // mostly pick a kind that has matching input features (a generator without features is legal, but teaches little)
+        for (int attempt = 0; attempt < 4; ++attempt)
+        {
+            bool present = false;
+            for (size_t raw = 0; raw < F; ++raw)
+            {
+                if (static_cast<int>(raw) == target) continue;
+                const auto& d = feats[raw];
+                present = present || (spec.kind == "sclass" && d.is_sclass()) || (spec.kind == "mclass" && d.is_mclass()) ||
+                          ((spec.kind == "scalar" || spec.kind == "product") && d.is_scalar()) || (spec.kind == "struct" && d.is_struct()) ||
+                          (spec.kind == "gradient" && d.is_struct() && d.d1 >= 3 && d.d2 >= 3);
+            }
+            if (present || rng.next() % 8 == 0) break;
+            spec.kind = kinds[rng.next() % 8];
+        }
         spec.ids1 = subset(true);
         spec.ids2 = spec.ids1;
         if (spec.kind == "sclass") { if (spec.ids1.empty()) dataset.add<sclass_identity_generator_t>(); else dataset.add<sclass_identity_generator_t>(to_idx(spec.ids1)); }
